@@ -1,6 +1,7 @@
 package main
 
 import (
+	"os"
 	"bytes"
 	"fmt"
 	"math/rand/v2"
@@ -34,6 +35,10 @@ func init() {
 }
 
 var c10MaxCap int
+
+// every buffer handed out during the request in flight: inspected again when the request is over, so that a buffer
+// that grew and was never given back (or was dropped as too large to recycle) is measured too
+var c10Handed []*bytes.Buffer
 var c10MaxAllocRatio float64
 
 func c10Setup(c *Ctx) {
@@ -43,7 +48,7 @@ func c10Setup(c *Ctx) {
 		}
 	}
 	installCountingHooks(&vanguard.VerifHooks{
-		PoolGet:  func(b *bytes.Buffer) { note(b) },
+		PoolGet:  func(b *bytes.Buffer) { note(b); c10Handed = append(c10Handed, b) },
 		PoolPut:  func(b *bytes.Buffer) bool { note(b); return false },
 		PoolWrap: func(_ []byte, o, res *bytes.Buffer) { note(o); note(res) },
 	})
@@ -181,6 +186,10 @@ func runC10(c *Ctx, i int, r *rand.Rand) {
 	if L <= 100<<10 && chance(r, 10) {
 		mult = 100
 	}
+	if L <= 4<<10 && chance(r, 25) {
+		// far past the limit: whatever is buffered without a check shows up in the pool hooks despite the additive slack
+		mult = pick(r, []int{100, 1000})
+	}
 	if L == 1<<20 && mult == 10 && !c.Thorough() {
 		mult = 2
 	}
@@ -203,6 +212,14 @@ func runC10(c *Ctx, i int, r *rand.Rand) {
 	}
 	creq := &ClientReq{Form: form, M: m, Codec: pick(r, []string{"proto", "json"}), HTTP2: true, DeclLen: chance(r, 50), GetViaQuery: true, Accept: []string{"gzip"}}
 	script := &BackendScript{Comp: pick(r, []string{"", "gzip"}), ReadBuf: 64 << 10}
+	// strata that random configurations reach too rarely: a forced re-encoding (the transforming adapters buffer whole
+	// messages) and a single forced target protocol (un-enveloped Connect unary bodies vs enveloped streams)
+	if chance(r, 35) {
+		cfg.Codecs = []string{map[string]string{"proto": "json", "json": "proto"}[creq.Codec]}
+	}
+	if chance(r, 30) {
+		cfg.Protocols = []string{pick(r, []string{"connect", "connect", "grpc", "grpcweb"})}
+	}
 	compressible := family == "gzip-ratio"
 	if compressible {
 		creq.Comp = "gzip"
@@ -287,9 +304,16 @@ func runC10(c *Ctx, i int, r *rand.Rand) {
 		sc := *script
 		var m0, m1 runtime.MemStats
 		c10MaxCap = 0
+		c10Handed = c10Handed[:0]
 		runtime.ReadMemStats(&m0)
 		e, err := runRPC(&cc, &cr, &sc, r, nil)
 		runtime.ReadMemStats(&m1)
+		for k, b := range c10Handed {
+			if b.Cap() > c10MaxCap {
+				c10MaxCap = b.Cap()
+			}
+			c10Handed[k] = nil
+		}
 		if err != nil {
 			return nil, 0, 0
 		}
@@ -342,6 +366,16 @@ func runC10(c *Ctx, i int, r *rand.Rand) {
 	if sizes.maxRep >= int(limit)/2 && sizes.maxRep <= 100*int(limit) {
 		c.Nontrivial(fmt.Sprintf("%d|%s|%d", limit, feat, sizes.maxRep))
 	}
+	if sizes.maxRep >= 10*int(limit) {
+		conv := "same-codec"
+		if e.Backend.Obs.Invocations > 0 && e.Backend.Obs.Codec != creq.Codec {
+			conv = "re-encoded"
+		}
+		c.Count(fmt.Sprintf("far-over-limit:%s/%s/%s", map[bool]string{true: "request", false: "response"}[dirReq], orNone(e.Backend.Obs.Proto), conv))
+		if os.Getenv("VERIF_C10_DEBUG") != "" && !dirReq && e.Backend.Obs.Proto == "connect-unary" {
+			fmt.Fprintf(os.Stderr, "DEBUG case %d family=%s limit=%d maxRep=%d maxCap=%d conv=%s form=%s out=%s comp=%q used=%q\n", i, family, limit, sizes.maxRep, maxCap, conv, form, e.Out.Summary(), script.Comp, e.Backend.Obs.UsedComp)
+		}
+	}
 	if e.Panic != nil {
 		c.Violate(i, "transcoder-panic/"+panicSite(e.Stack), detail())
 		return
@@ -349,7 +383,8 @@ func runC10(c *Ctx, i int, r *rand.Rand) {
 	o := e.Out
 	// (c) memory bound. An error that a gRPC backend carries in its trailers is HTTP header data, not a message:
 	// its size is outside the message buffer limit's reach.
-	headerBorne := family == "big-error" && e.Backend.Obs.Proto == "grpc"
+	// (a gRPC-Web backend answering trailers-only does the same: status and message travel in the response head)
+	headerBorne := family == "big-error" && (e.Backend.Obs.Proto == "grpc" || (e.Backend.Obs.Proto == "grpcweb" && script.TrailersOnly && script.ErrAfter == 0))
 	c.Count("memory-checked")
 	if headerBorne {
 		c.Count("header-borne-error-not-bounded")
